@@ -44,6 +44,8 @@ def gen_cases(rng, tier):
     route = rng.choice(["api_class", "api_legacy", "potable", "potable", "cli" if i % 10 == 0 else "potable"])
     groute = "api" if route.startswith("api") else "potable"
     m = spec.gen_pair_model(rng, groute, target="GULP", reg0=True, nr_choices=[2, 3, 5, 8, 21, 50, 101, 200])
+    if groute == "api" and i % 3 == 0:
+      m["api_variant"] = "energy_override"
     cases.append({"kind": "gulp", "route": route, "model": m, "style": rng.randrange(1 << 30)})
   for i in range(n):
     route = rng.choice(["api_class", "potable", "potable", "cli" if i % 10 == 0 else "potable"])
@@ -68,6 +70,8 @@ def gen_cases(rng, tier):
     groute = "api" if route.startswith("api") else "potable"
     if kind == "pair":
       m = spec.gen_pair_model(rng, groute, target="excel", reg0=True, nr_choices=[2, 3, 5, 9, 21, 60])
+      if groute == "api" and i % 2 == 0:
+        m["api_variant"] = "energy_override"
     else:
       m = spec.gen_eam_model(rng, kind, groute, target="excel_eam" if kind == "eam" else "excel_eam_fs",
                              grids={"nr": rng.choice([2, 3, 5, 9, 21, 60]), "nrho": rng.choice([2, 3, 5, 9, 30])})
@@ -445,6 +449,8 @@ def run_case(case, ctx):
   ctx.cls("route:" + case["route"])
   if case["kind"] == "funcfl":
     case["model"]["api_containers"] = [None, "tuple"][case["style"] % 2]   # writeFuncFL indexes its lists: sequences only
+  if (case.get("model") or {}).get("api_variant"):
+    ctx.cls("api_variant:" + case["model"]["api_variant"])
   if case["model"].get("api_containers"):
     ctx.cls("api_containers:" + case["model"]["api_containers"])
   rng = random.Random(case["style"])
